@@ -142,6 +142,19 @@ PLAN = {
         "level_text": "Postconditions and loop invariants proved for all header lists, hop counts, mount tables of any size and request paths.",
         "level_note": "Trusted: pyvc encoder; string helper functions uninterpreted; lifespan fan-out not covered; 'modern' mode falling back to X-Forwarded-* when no Forwarded header is usable is an observation, not claimed either way.",
     },
+    "C19": {
+        "units": ["hypercorn.__main__:main", "hypercorn.config:Config.response_headers", "hypercorn.config:Config.bind.setter", "hypercorn.config:Config.insecure_bind.setter",
+                  "hypercorn.config:Config.quic_bind.setter", "hypercorn.config:Config.root_path.setter"],
+        "standins": [{"file": "standins/binds.py", "name": "bind string parsing (Config._create_sockets)", "label": "BOUNDED stand-in, not counted as proved"}],
+        "trusted_base": ["argparse: the real parser object is built natively by main(); parse_args() is replaced by a namespace in which every option is either absent (its default) or given with an arbitrary value of its type",
+                         "the option table of docs/how_to_guides/configuring.rst as oracle for which flag configures which setting"],
+        "assumptions": ["the loaders (from_mapping / from_object / from_pyfile / from_toml: setattr over arbitrary keys, importlib, tomllib) are not under contract; that they funnel into one setattr loop is by inspection only",
+                        "deprecated aliases not in the documentation table (--access-log, --error-log, --cert-reqs) are assumed absent",
+                        "format_date_time returns a well-formed RFC 7231 date"],
+        "explanation": "command line: one obligation per configuration setting -- after main() the setting equals the flag's value if its flag was given and the loaded configuration's value otherwise -- proved for all 2^35 combinations of flags and all values; setters; response headers; bind strings by bounded enumeration",
+        "level_text": "54 per-setting postconditions of main() proved for every combination of options (conditional assignments are merged, not enumerated); response_headers and the property setters proved for all inputs. Bind-string parsing is a labelled bounded stand-in.",
+        "level_note": "Trusted: pyvc encoder; argparse semantics for parsing itself; docs table as oracle. Bounded (not proof): bind strings.",
+    },
     "C08": {
         "units": [SB + m for m in ("__init__", "push", "pop", "drain", "set_complete", "close", "complete")] + [HP + m for m in ("_window_updated", "_send_data", "stream_send", "handle", "send_task")],
         "trusted_base": LIB_H2,
